@@ -137,6 +137,34 @@ def sc_history(B, C, D, change):
     return o
 
 
+def sc_gradient(B, C, D, N):
+    """composition with real statistics: the score of (UBM means + delta) against acc_stats(X) is
+    sum_i sum_c r_ci (x_i - mu_c)' Sigma_c^-1 delta_c, the textbook directional derivative of the
+    data's UBM log-likelihood (that this expression *is* the derivative is trusted calculus)"""
+    from .common import o_resp
+
+    ls = B.mod("linear_scoring").linear_scoring
+    ubm, UP = make_gmm(B, C, D, "scalar", pre="u", simplex=True)
+    X = B.arr("x", (N, D))
+    delta = B.arr("dl", (C, D))
+    model = B.np.array([[UP["mu"][c][d] + delta[c, d] for d in range(D)] for c in range(C)])
+    got = ls(model, ubm, ubm.acc_stats(X), 0, frame_length_normalization=False)
+    want = 0
+    for i in range(N):
+        r, _ = o_resp(B, UP, X[i])
+        for c in range(C):
+            for d in range(D):
+                want = want + r[c] * (X[i][d] - UP["mu"][c][d]) / UP["v"][c][d] * delta[c, d]
+    o = Outcome()
+    o.equal("score-is-directional-derivative-formula", got, [[want]])
+    return o
+
+
+def job_gradient(P):
+    for (C, D, N) in ((2, 1, 2), (2, 2, 2)):
+        P.run("gradient@C%dD%dN%d" % (C, D, N), sc_gradient, dict(C=C, D=D, N=N), validate=1)
+
+
 def job_history(P, C, D):
     for change in ("variances", "floors", "means", "variances-via-map", "floors-via-map"):
         P.run("history-" + change, sc_history, dict(C=C, D=D, change=change), validate=1)
@@ -166,4 +194,5 @@ def jobs(tier):
                 out.append(("linear@C%dD%dM%dS%d" % (C, D, M, S), "job_linear", dict(C=C, D=D, M=M, S=S)))
     for (C, D) in SIZES[tier]:
         out.append(("history@C%dD%d" % (C, D), "job_history", dict(C=C, D=D)))
+    out.append(("gradient", "job_gradient", {}))
     return out
